@@ -84,5 +84,10 @@ def run(tier, seed, replay):
         nvar = 2 if tier == "quick" else 6
     records = semrun.replay(cases, rnd, nvariants=nvar)
     report_records(ck, cases, records)
+    # the same in a development-mode group: the same tree, plus the announced attribute names (WxmlSem!DevNames)
+    dcases = cases if (replay or tier != "quick") else [c for c in cases if rnd.random() < 0.25]
+    drecords = semrun.replay(dcases, rnd, nvariants=1, dev=True)
+    report_records(ck, dcases, drecords)
+    ck.notes.append("development mode: %d cases replayed" % len(dcases))
     ck.exhaustive = True
     return ck.finish()
